@@ -25,7 +25,9 @@ MulAbs(a, b) ==
   IN  ah * bh + (ah * bl + al * bh) \div K + (al * bl) \div Q
 Mul(a, b) == IF (a < 0) = (b < 0) THEN MulAbs(Abs(a), Abs(b)) ELSE -MulAbs(Abs(a), Abs(b))
 
-Close(a, b, tol) == Abs(a - b) <= tol
+\* |a - b| <= tol, total on the whole 32-bit range (a - b itself overflows for large values of opposite sign)
+Close(a, b, tol) == IF (a >= 0) = (b >= 0) THEN Abs(a - b) <= tol
+                    ELSE Abs(a) <= tol /\ Abs(b) <= tol /\ Abs(a) <= tol - Abs(b)
 
 \* integer square root (floor) by bisection, n >= 0, n < 2^31
 RECURSIVE ISqrtBis(_, _, _)
